@@ -226,7 +226,8 @@ type obsDecode struct {
 }
 
 var tagPool = []string{"HEAD", "NAME", "DATE", "BIRT", "DEAT", "PLAC", "NOTE", "SEX", "SOUR", "INDI", "FAM",
-	"HUSB", "WIFE", "CHIL", "_UID", "_X", "1A", "RESI", "EVEN", "FAMS", "FAMC", "CONT", "TYPE", "x_y"}
+	"HUSB", "WIFE", "CHIL", "_UID", "_X", "1A", "RESI", "EVEN", "FAMS", "FAMC", "CONT", "TYPE", "x_y",
+	"husb", "Chil", "WIFe", "indi", "Fam", "fam", "name", "Date", "sex", "HUSBAND", "CHILD", "FAMILY", "INDIVIDUAL"}
 
 var valPool = []string{"", "", "x", "John /Smith/", "@P1@", "a@b", "  padded  ", "1 NAME y", "0", "3 Sep 1943",
 	"tab\there", "\tlead", "trail\t", "nb\u00a0", "\u0085nel", "wide\u3000", "\u2003em\u2003", "bad\xff", "\xc2", "\xe2\x80",
@@ -312,7 +313,11 @@ func mutate(rng *rand.Rand, in []byte) []byte {
 			continue
 		}
 		p := rng.Intn(len(out))
-		switch rng.Intn(4) {
+		switch rng.Intn(5) {
+		case 4: // flip the case of a letter
+			if c := out[p]; (c >= 'A' && c <= 'Z') || (c >= 'a' && c <= 'z') {
+				out[p] = c ^ 0x20
+			}
 		case 0:
 			out[p] = mutBytes[rng.Intn(len(mutBytes))]
 		case 1:
@@ -347,6 +352,7 @@ var adversarial = []string{
 	"0 A\n010 B\n", "0 A\n4294967297 B\n", "\xef\xbb\xbf", "\xef\xbb\xbf\n", "\xef\xbb", "0 A\n\xef\xbb\xbf1 B\n", "\n\n\r\r\n", "",
 	"0 @I1@ INDI value\n1 NAME a\n", "0 @F1@ FAM value\n", "0 A\n1 INDI v\n1 FAM w\n2 HUSB @X@\n", "0 INDI\n0 FAM\n",
 	"0 A\n3 B\n", "0 A\n1 B\n3 C\n", "0 A\n1 B\n2 C\n0 D\n2 E\n", "9 X\n", "0 A\r1 B\r\n2 C\n\r3 D",
+	"1 husb @I1@\n", "0 Chil @I2@\n", "0 A\n1 WIFe\n", "0 indi\n1 fam\n2 Husb x\n", "0 @F1@ fam\n1 HUSB @I1@\n", "0 @F1@ FAM\n1 husb @I1@\n1 Chil\n",
 	"0 NOTE a\ncontinued\n\n1 X y\nmore\n", "text first\n0 A\n", "\n0 A\n\nmore\n\n", "0 @I1@ INDI\nfree\n1 NAME x\n", "0 @F@ FAM\nglued\n",
 }
 
@@ -477,6 +483,10 @@ func BuildReal(c buildCase) (doc *gedcom.Document, err error) {
 }
 
 type obsBuild struct {
+	Big     bool         `json:"big"`  // too large to re-encode in TLC: only Same / the outcome are judged
+	Same    bool         `json:"same"` // projection of the decoded document = projection of the built one
+	Nodes   int          `json:"nodes"`
+	Size    int          `json:"size"`
 	Bom     bool         `json:"bom"`
 	Built   []proj.PNode `json:"built"`
 	Bytes   []int        `json:"bytes"`
@@ -498,7 +508,8 @@ func observeBuild(c buildCase) (obsBuild, error) {
 	encErr := gedcom.NewEncoder(&buf, doc).Encode()
 	dec, doc2 := DecodeReal([]byte(text), Opts{})
 	o := obsBuild{Bom: doc.HasBOM, Built: built, Bytes: proj.B(text), Decoded: dec,
-		EncSame: encErr == nil && buf.String() == text, KindsOK: true}
+		EncSame: encErr == nil && buf.String() == text, KindsOK: true, Nodes: len(built), Size: len(text)}
+	o.Same = dec.Out == "doc" && proj.EqualForest(dec.Forest, built) && dec.Bom == doc.HasBOM
 	if doc2 != nil {
 		k2 := proj.Kinds(doc2)
 		if len(k2) != len(kindsBuilt) {
@@ -650,6 +661,39 @@ func RecordBuild(w io.Writer, seed int64, n int) error {
 			// difference here means the constructor paths do not yield what was asked
 			fmt.Fprintf(os.Stderr, "note: built forest differs from requested one (case %d)\n", i)
 		}
+		enc.Encode(o)
+	}
+	// large documents: very long values, very many children, very deep chains.  TLC does not
+	// re-encode these; it judges the recorded comparison built = decoded and the outcome.
+	bigs := []buildCase{}
+	for _, n := range []int{60000, 65535, 65536, 70000, 300000} {
+		v := strings.Repeat("v", n)
+		bigs = append(bigs, buildCase{Forest: []proj.PNode{{Lvl: 0, Ptr: proj.B(""), Tag: proj.B("HEAD"), Val: proj.B("")},
+			{Lvl: 1, Ptr: proj.B(""), Tag: proj.B("NOTE"), Val: proj.B(v)}, {Lvl: 1, Ptr: proj.B("X"), Tag: proj.B("_Y"), Val: proj.B("after")}}})
+	}
+	wide := buildCase{Bom: true, Forest: []proj.PNode{{Lvl: 0, Ptr: proj.B("I1"), Tag: proj.B("INDI"), Val: proj.B("")}}}
+	for i := 0; i < 20000; i++ {
+		wide.Forest = append(wide.Forest, proj.PNode{Lvl: 1, Ptr: proj.B(""), Tag: proj.B(tags[i%len(tags)]), Val: proj.B(strconv.Itoa(i))})
+		if t := proj.S(wide.Forest[len(wide.Forest)-1].Tag); t == "INDI" || t == "FAM" || t == "HUSB" || t == "WIFE" || t == "CHIL" {
+			wide.Forest[len(wide.Forest)-1].Tag = proj.B("_W")
+		}
+	}
+	bigs = append(bigs, wide)
+	deep := buildCase{Forest: []proj.PNode{}}
+	for i := 0; i < 1200; i++ {
+		deep.Forest = append(deep.Forest, proj.PNode{Lvl: i, Ptr: proj.B(""), Tag: proj.B("D"), Val: proj.B("")})
+	}
+	bigs = append(bigs, deep)
+	ptr := strings.Repeat("p", 70000)
+	bigs = append(bigs, buildCase{Forest: []proj.PNode{{Lvl: 0, Ptr: proj.B(ptr), Tag: proj.B("NOTE"), Val: proj.B("x")}}})
+	bigs = append(bigs, buildCase{Forest: []proj.PNode{{Lvl: 0, Ptr: proj.B(""), Tag: proj.B(strings.Repeat("T", 70000)), Val: proj.B("x")}}})
+	for _, c := range bigs {
+		o, err := observeBuild(c)
+		if err != nil {
+			return fmt.Errorf("driver could not build its own forest: %v", err)
+		}
+		o.Big = true
+		o.Built, o.Bytes, o.Decoded.Forest = []proj.PNode{}, []int{}, []proj.PNode{}
 		enc.Encode(o)
 	}
 	return nil
